@@ -45,6 +45,13 @@ class FlowMixin:
         """while loops (and symbolic for loops via for_ctx): peel one iteration, then one generic iteration"""
         label = self.loop_label(st, stmt, kind)
         invs = self.loop_invs(st, label)
+        # loops declared "consistent": every class invariant in scope holds at the loop head (checked at entry and at
+        # every back edge, assumed for the generic iteration) -- needed when the body calls functions that rely on them
+        fn0 = st.frames[-1].func
+        c0 = self.reg.contracts.get(fn0.fqn) if isinstance(fn0, FuncInfo) else None
+        consistent = c0 is not None and label in getattr(c0, "loop_consistent", ()) and not may_suspend(stmt.body)
+        if consistent:
+            self.assert_invariants(st, where=label + ".entry")
         results = []
         st.labels["loop_entry"] = st.snap()
         st0 = st.copy()
@@ -57,7 +64,7 @@ class FlowMixin:
             return [(o, s) for (o, s, _g) in results]
         for b in back:
             self.check_loop_invs(b[0], invs, label, "preserved(first)", for_ctx, idx=b[1])
-            if may_suspend(stmt.body):
+            if may_suspend(stmt.body) or consistent:
                 self.assert_invariants(b[0], where=label + ".backedge")
         # ---- generic iteration
         written = set()
@@ -100,6 +107,12 @@ class FlowMixin:
                 self.assume_invariants_eagerly(g)
             else:
                 self.havoc_keys(g, written, proto=back[0][0])
+                if consistent:
+                    g.inv_base = g.snap()
+                    g.inv_over = {}
+                    g.inv_hist = ()
+                    g.touched = frozenset()
+                    self.assume_invariants_eagerly(g)
             idx = None
             if for_ctx is not None:
                 idx = fresh("it", z3.IntSort())
@@ -112,7 +125,7 @@ class FlowMixin:
             new_written = set()
             for b, bi in back2:
                 self.check_loop_invs(b, invs, label, "preserved", for_ctx, idx=bi)
-                if may_suspend(stmt.body):
+                if may_suspend(stmt.body) or consistent:
                     self.assert_invariants(b, where=label + ".backedge")
                 new_written |= (b.wrote - st0.wrote)
             if may_suspend(stmt.body) or new_written <= written:
@@ -226,13 +239,46 @@ class FlowMixin:
                     continue
                 raise Unsupported("loop-carried local %s of kind %s" % (n, type(v).__name__))
 
+    def sort_of_heap_key(self, key):
+        """sort of the heap array behind 'Class.field[#component]' from the model declarations"""
+        cn, _, f = key.partition(".")
+        base, _, suf = f.partition("#")
+        try:
+            fd = self.field_decl(cn, base)
+        except Unsupported:
+            fd = None
+        if fd is None:
+            return None
+        ty = fd[1]
+        if ty[0] == "opt" and ty[1][0] == "list":
+            if suf == "none":
+                return z3.ArraySort(RefS, z3.BoolSort())
+            ty = ty[1]
+        if ty[0] == "list":
+            if suf == "a":
+                return self.key_sort(key, ty)
+            if suf == "n":
+                return z3.ArraySort(RefS, z3.IntSort())
+            return None
+        if ty[0] == "dict":
+            for hk, srt in self.dict_heap_keys(cn + "." + base, ty):
+                if hk == key:
+                    return srt
+            return None
+        if suf:
+            return None
+        return self.key_sort(key, ty)
+
     def havoc_keys(self, st, keys, proto=None):
         for key in sorted(keys):
             cur = st.heap.get(key)
             if cur is None and proto is not None:
                 cur = proto.heap.get(key)
             if cur is None:
-                raise Unsupported("cannot havoc heap key %s (sort unknown)" % key)
+                srt = self.sort_of_heap_key(key)
+                if srt is None:
+                    raise Unsupported("cannot havoc heap key %s (sort unknown)" % key)
+                cur = st.harr(key, srt)
             st.heap[key] = fresh("Hh!" + key, cur.sort())
             for ax in self.born_before(st.heap[key], st.clock, key):
                 st.assume(ax)
@@ -316,10 +362,27 @@ class FlowMixin:
                 return self.async_with(stmt, item, cm, s)
             if isinstance(cm, CoroVal) and cm.kind == "gen" and cm.info.is_contextmanager:
                 return self.inline_contextmanager(stmt, item, cm, s)
-            if isinstance(cm, ExitStackVal):
-                return self.exitstack_with(stmt, item, cm, s)
+            if isinstance(cm, Val) and cm.ty[0] == "ref" and cm.ty[1] and \
+                    ("abstract:%s.__exit__" % cm.ty[1]) in self.reg.contracts:
+                return self.object_with(stmt, item, cm, s)
             raise Unsupported("with over %r" % (cm,))
         return self.ev(item.context_expr, st, with_cm)
+
+    def object_with(self, stmt, item, cm, st):
+        """`with obj:` for an object whose __enter__/__exit__ are given by abstract contracts (e.g. contextlib.ExitStack):
+        __enter__ yields the object itself; __exit__(exc) answers whether the exception is swallowed"""
+        if item.optional_vars is not None:
+            self.assign_target(item.optional_vars, cm, st)
+        outs = self.exec_block(stmt.body, st)
+        res = []
+        for o, s2 in outs:
+            if o.kind == "X":
+                exc = o.val
+                res.extend(self.call_method(cm, "__exit__", [exc], {}, s2, lambda r, s3, exc=exc: self.truth_val(
+                    r, s3, lambda s4: [(N_, s4)], lambda s4: [(Outcome("X", exc), s4)])))
+            else:
+                res.extend(self.call_method(cm, "__exit__", [NONE], {}, s2, lambda r, s3, o=o: [(o, s3)]))
+        return res
 
     def inline_contextmanager(self, stmt, item, cm, st):
         info = cm.info
